@@ -649,6 +649,14 @@ impl Tokenizer {
             return Ok(vec![]);
         }
 
+        // Without a length limit everything goes into a single chunk, so
+        // there is no following chunk to overlap with.
+        let overlap = if options.max_chunk_len.is_some() {
+            options.overlap
+        } else {
+            0
+        };
+
         // Split into chunks.
         let mut chunks = Vec::new();
 
@@ -658,8 +666,8 @@ impl Tokenizer {
             EncoderInput::Item(item) => {
                 let all_offsets = &offsets;
                 for (chunk_idx, (tokens_chunk, offsets_chunk)) in tokens
-                    .chunks_with_overlap(max_tokens_per_chunk, options.overlap)
-                    .zip(offsets.chunks_with_overlap(max_tokens_per_chunk, options.overlap))
+                    .chunks_with_overlap(max_tokens_per_chunk, overlap)
+                    .zip(offsets.chunks_with_overlap(max_tokens_per_chunk, overlap))
                     .enumerate()
                 {
                     let mut tokens = Vec::new();
@@ -710,9 +718,17 @@ impl Tokenizer {
                     return Ok(vec![]);
                 }
 
+                // If the whole second sequence fits into one chunk there is no
+                // following chunk to overlap with.
+                let overlap = if second_tokens.len() <= second_len {
+                    0
+                } else {
+                    overlap
+                };
+
                 for (chunk_idx, (tokens_chunk, offsets_chunk)) in second_tokens
-                    .chunks_with_overlap(second_len, options.overlap)
-                    .zip(second_offsets.chunks_with_overlap(second_len, options.overlap))
+                    .chunks_with_overlap(second_len, overlap)
+                    .zip(second_offsets.chunks_with_overlap(second_len, overlap))
                     .enumerate()
                 {
                     let mut tokens = Vec::new();
